@@ -1,10 +1,15 @@
 (* LifecycleModel.v -- labelled transition system of server/server.go (property C17).
    Definitions only.  One step = one atomic action of the code AS IT IS NOW (after the fix: commits
-   for D6a-D6d), tagged with the goroutine taking it.  The step relation is an executable function
-   [step : variant -> cfg -> state -> label -> option state].
+   7acbe3f e8510bb 26d02fd f337e9e fb6684d c43a822 ac00631 17ec04c), tagged with the goroutine taking
+   it.  The step relation is an executable function
+   [step : variant -> cfg -> state -> label -> option state]; [GuardNow] is the current code, the other
+   variants switch single fixes off (comparison lemmas in Properties/C17.v).
 
    What is transcribed (server/server.go):
-     serve          : LServeCb, LPublish, LAccept, LAcceptCb, LRejectClose, LCtxPass, LTrack, LServeReturn
+     serve          : LServeCb, LPublish (lock; store listener; read isShutdown; unlock), LAccept, LAcceptCb,
+                      LRejectClose, LCtxPass / LCtxDone (the select), LTrack (trackConn(c,true), may refuse),
+                      LDropClose, LDropCb (close + close callback of a connection that is not served),
+                      LServeReturn
      go func(){..}  : (handle) LConnRead .. LHandleEnd, LConnCtxExit;  (deferred) LConnLeave, LErrCb,
                       LConnExit, LUntrack, LCloseCb
      trackConn      : LTrack / LUntrack (lock; map update; counter add; unlock = one atomic step)
@@ -22,10 +27,23 @@ Definition all_cfgs : list cfg :=
     {| on_serve := a; on_error := b; on_accept := c; on_close := d |}) [false; true]) [false; true]) [false; true]) [false; true].
 
 (* which field guards the call of OnCloseConnFunc in the deferred function of the connection
-   goroutine: the code before fix 7acbe3f tested OnAcceptConnFunc, the code now tests OnCloseConnFunc *)
-Inductive variant := GuardOld | GuardNow.
+   goroutine: the code before fix 7acbe3f tested OnAcceptConnFunc, the code now tests OnCloseConnFunc.
+   The other switches select the behaviour before the later fix: commits, so that the step function
+   of the code as it is now ([GuardNow], all switches off) can be compared with its predecessors:
+     v_load_old  (before fb6684d) Shutdown's fall-through after a failed CAS tested `Load() == handling`
+     v_track_old (before c43a822) trackConn(c,true) added the connection even after Shutdown
+     v_drop_old  (before ac00631) the select on ctx.Done() returned without closing the accepted connection
+     v_nil_old   (before 17ec04c) Shutdown called s.listener.Close() on a nil listener; serve did not
+                 look at isShutdown when publishing the listener *)
+Record variant := { v_guard_old : bool; v_load_old : bool; v_track_old : bool; v_drop_old : bool; v_nil_old : bool }.
+Definition GuardNow : variant := Build_variant false false false false false.
+Definition GuardOld : variant := Build_variant true false false false false.
+Definition LoadOld : variant := Build_variant false true false false false.
+Definition TrackOld : variant := Build_variant false false true false false.
+Definition DropOld : variant := Build_variant false false false true false.
+Definition NilOld : variant := Build_variant false false false false true.
 Definition close_guard (v : variant) (k : cfg) : bool :=
-  match v with GuardOld => on_accept k | GuardNow => on_close k end.
+  if v_guard_old v then on_accept k else on_close k.
 
 (* ---------- per-connection state ---------- *)
 Inductive phase :=
@@ -40,7 +58,10 @@ Inductive phase :=
 | PExiting     (* Store(connClosed) done; deferred function: recover done, conn.Close() not yet *)
 | PExited      (* conn.Close() done, trackConn(c,false) not yet *)
 | PUntracked   (* untracked, close callback not yet consulted *)
-| PDone.       (* goroutine finished *)
+| PDone        (* goroutine finished *)
+| PDropping    (* let through by the accept stage but not going to be served: serve has closed it, close callback pending *)
+| PDropped.    (* let through by the accept stage but not served: serve closed it and ran the close callback
+                  (context cancelled in the select, or trackConn refused it after Shutdown); terminal *)
 
 Inductive cstate := CIdle | CHandling | CClosed.          (* connection.state atom *)
 
@@ -62,7 +83,8 @@ Record conn := {
   live_at_cb : Z;          (* number of live (tracked, not yet untracked) connections at that call *)
   started : nat;           (* handler invocations *)
   replied : nat;           (* requests whose reply was written completely *)
-  owed : list nat;         (* requests whose handler started and whose reply is not yet written *)
+  owed : list nat;         (* requests whose handler started and whose reply is still due: not yet written,
+                              the handler has not panicked and no write of it has failed *)
   lost : nat;              (* owed replies whose write failed on a socket the server side had closed *)
   sd_via : via
 }.
@@ -119,6 +141,10 @@ Inductive spc :=             (* program counter of serve *)
 | SRejected (c : nat)        (* callback returned an error, netConn.Close() pending *)
 | SPassed (c : nat)          (* callback passed (or unset); select on ctx.Done() pending *)
 | STrack (c : nat)           (* ctx not done; trackConn(c,true) and go pending *)
+| SDrop (c : nat) (ret : bool)     (* c is not going to be served (ret: ctx done in the select, serve returns
+                                      afterwards; else trackConn refused it, serve continues): netConn.Close() pending *)
+| SDropCb (c : nat) (ret : bool)   (* closed; `if s.OnCloseConnFunc != nil { call }` pending *)
+| SLeaving (reg : bool)            (* about to `return ErrServerClosed` (reg: the AfterFunc has been registered) *)
 | SReturned (e : err).
 
 Inductive sdpc :=            (* program counter of Shutdown *)
@@ -176,7 +202,10 @@ Inductive label :=
 | LAcceptCb (c : nat) (n : Z) (ok : bool)   (* s.OnAcceptConnFunc(.., n) returned nil / an error *)
 | LRejectClose (c : nat)
 | LCtxPass (c : nat)                (* select: ctx not done *)
-| LTrack (c : nat)                  (* trackConn(c,true); go ... *)
+| LCtxDone (c : nat)                (* select: ctx done *)
+| LTrack (c : nat)                  (* trackConn(c,true) (refuses after Shutdown); go ... *)
+| LDropClose (c : nat)              (* netConn.Close() of a connection that is not going to be served *)
+| LDropCb (c : nat)                 (* `if s.OnCloseConnFunc != nil { s.OnCloseConnFunc(..) }` for it; return / continue *)
 | LServeReturn (e : err)            (* accept failed, or ctx done in the select; deferred l.Close() *)
 (* connection goroutine *)
 | LConnRead (c : nat) (r : rres)
@@ -208,7 +237,8 @@ Inductive label :=
 
 Definition label_gor (l : label) : gor :=
   match l with
-  | LServeCb | LPublish | LAccept _ | LAcceptCb _ _ _ | LRejectClose _ | LCtxPass _ | LTrack _ | LServeReturn _ => GServe
+  | LServeCb | LPublish | LAccept _ | LAcceptCb _ _ _ | LRejectClose _ | LCtxPass _ | LCtxDone _ | LTrack _
+  | LDropClose _ | LDropCb _ | LServeReturn _ => GServe
   | LConnRead c _ | LConnCtxExit c | LHandleStart c | LHandlerStart c | LHandlerEnd c _ | LProtoReply c
   | LReplyWrite c _ | LHandleEnd c | LErrCb c | LConnLeave c | LConnExit c | LUntrack c | LCloseCb c => GConn c
   | LSdCall | LSdBegin | LSdCas _ | LSdLoad _ | LSdClose _ | LSdPassEnd | LSdRetry | LSdTimeout | LSdReturn => GShutdown
@@ -247,7 +277,8 @@ Fixpoint remove_nat (c : nat) (l : list nat) : list nat :=
 Fixpoint mem_nat (c : nat) (l : list nat) : bool :=
   match l with [] => false | d :: t => Nat.eqb c d || mem_nat c t end.
 
-Definition published (p : spc) : bool := match p with SStart | SCalled => false | _ => true end.
+(* the AfterFunc that closes the listener on cancel has been registered *)
+Definition published (p : spc) : bool := match p with SStart | SCalled => false | SLeaving reg => reg | _ => true end.
 Definition returned (p : spc) : bool := match p with SReturned _ => true | _ => false end.
 Definition err_is_closed (e : err) : bool := match e with EClosed => true | _ => false end.
 Definition err_is_other (e : err) : bool := match e with EOther => true | _ => false end.
@@ -275,7 +306,10 @@ Definition step (v : variant) (k : cfg) (s : state) (l : label) : option state :
       match sp s with SStart => Some (s_sp SCalled s) | _ => None end
   | LPublish =>
       match sp s with
-      | SCalled => if mu s then None else Some (s_sp SLoop (s_lis_set true s))
+      | SCalled =>
+          (* lock; s.listener = listener; isShutdown := s.isShutdown.Load(); unlock; `if isShutdown { return ErrServerClosed }` *)
+          if mu s then None
+          else Some (s_sp (if shut s && negb (v_nil_old v) then SLeaving false else SLoop) (s_lis_set true s))
       | _ => None
       end
   | LAccept c =>
@@ -304,11 +338,34 @@ Definition step (v : variant) (k : cfg) (s : state) (l : label) : option state :
       | SPassed c' => if Nat.eqb c c' && negb (cancelled s) then Some (s_sp (STrack c) s) else None
       | _ => None
       end
+  | LCtxDone c =>
+      match sp s with
+      | SPassed c' => if Nat.eqb c c' && cancelled s && negb (v_drop_old v) then Some (s_sp (SDrop c true) s) else None
+      | _ => None
+      end
   | LTrack c =>
       match sp s, get s c with
       | STrack c', Some x =>
           if Nat.eqb c c' && negb (mu s)
-          then Some (s_sp SLoop (s_count (count s + 1)%Z (put s c (c_ph PIdle (c_inmap true x)))))
+          then if shut s && negb (v_track_old v)
+               then (* trackConn returns false: Shutdown has run, the connection is not added *)
+                    Some (s_sp (SDrop c false) s)
+               else Some (s_sp SLoop (s_count (count s + 1)%Z (put s c (c_ph PIdle (c_inmap true x)))))
+          else None
+      | _, _ => None
+      end
+  | LDropClose c =>
+      match sp s, get s c with
+      | SDrop c' r, Some x =>
+          if Nat.eqb c c' then Some (s_sp (SDropCb c r) (put s c (c_ph PDropping (c_sock false x)))) else None
+      | _, _ => None
+      end
+  | LDropCb c =>
+      match sp s, get s c with
+      | SDropCb c' r, Some x =>
+          if Nat.eqb c c'
+          then Some (s_sp (if r then SLeaving true else SLoop)
+                       (put s c (c_ph PDropped (if on_close k then c_close_cb (S (close_cb x)) x else x))))
           else None
       | _, _ => None
       end
@@ -320,9 +377,12 @@ Definition step (v : variant) (k : cfg) (s : state) (l : label) : option state :
           if shut s || cancelled s
           then (if err_is_closed e && negb (lis_open s) then ret else None)
           else (if err_is_other e then ret else None)
+      | SLeaving _ =>
+          (* `return ErrServerClosed` *)
+          if err_is_closed e then ret else None
       | SPassed _ =>
-          (* select: ctx done *)
-          if cancelled s && err_is_closed e then ret else None
+          (* before ac00631: the select on ctx.Done() returned at once *)
+          if v_drop_old v && cancelled s && err_is_closed e then ret else None
       | _ => None
       end
   (* ----- connection goroutine ----- *)
@@ -350,7 +410,7 @@ Definition step (v : variant) (k : cfg) (s : state) (l : label) : option state :
   | LHandlerEnd c ok =>
       conn_step s c PInHandler (fun x =>
         if ok then Some (c_ph PHandling (c_resp true x))
-        else Some (c_ph PLeaving (c_panicked true x)))
+        else Some (c_ph PLeaving (c_panicked true (c_owed [] x))))
   | LProtoReply c =>
       conn_step s c PHandling (fun x =>
         if closeconn x then None else Some (c_resp true (c_closeconn true x)))
@@ -358,7 +418,7 @@ Definition step (v : variant) (k : cfg) (s : state) (l : label) : option state :
       conn_step s c PHandling (fun x =>
         if resp x then
           if ok then (if sock x then Some (c_ph PReplied (c_replied (replied x + length (owed x)) (c_owed [] x))) else None)
-          else Some (c_ph PLeaving (c_pend true (c_lost (if sock x then lost x else lost x + length (owed x)) x)))
+          else Some (c_ph PLeaving (c_pend true (c_owed [] (c_lost (if sock x then lost x else lost x + length (owed x)) x))))
         else None)
   | LHandleEnd c =>
       match get s c with
@@ -409,8 +469,12 @@ Definition step (v : variant) (k : cfg) (s : state) (l : label) : option state :
             if lis_set s
             then Some (s_sd (SdPass (inmap_ids (conns s) 0) true)
                         (s_mu true (s_sd_req false (s_sd_err (negb (lis_open s)) (s_lis_open false (s_shut true s))))))
-            else (* s.listener is nil: the method call panics in the caller's goroutine; the deferred Unlock runs *)
+            else if v_nil_old v
+            then (* before 17ec04c: s.listener is nil, the method call panics in the caller's goroutine; the deferred Unlock runs *)
                  Some (s_sd (SdReturned EPanic) (s_sd_req false (s_shut true s)))
+            else (* `if s.listener != nil`: serve has not started yet, nothing to close *)
+                 Some (s_sd (SdPass (inmap_ids (conns s) 0) true)
+                        (s_mu true (s_sd_req false (s_sd_err false (s_shut true s)))))
           else None
       | _ => None
       end
@@ -430,10 +494,14 @@ Definition step (v : variant) (k : cfg) (s : state) (l : label) : option state :
       match sd s, get s c with
       | SdFailed c' todo ai, Some x =>
           if Nat.eqb c c' then
+            (* `c.state.Load() != connClosed` => look at it again in the next round *)
             match cst x with
             | CHandling => Some (s_sd (SdPass todo false) s)
             | CClosed => Some (s_sd (SdClosing c todo ai) (put s c (via_set ViaLoadClosed x)))
-            | CIdle => Some (s_sd (SdClosing c todo ai) (put s c (c_via ViaLoadIdle x)))
+            | CIdle => if v_load_old v
+                       then (* before fb6684d the test was `Load() == connHandling` *)
+                            Some (s_sd (SdClosing c todo ai) (put s c (c_via ViaLoadIdle x)))
+                       else Some (s_sd (SdPass todo false) s)
             end
           else None
       | _, _ => None
@@ -489,7 +557,7 @@ Definition observe (k : cfg) (s : state) (l : label) : option obs :=
   | LServeCb => if on_serve k then Some OServeCb else None
   | LAccept c => Some (OAccept c)
   | LAcceptCb c n ok => Some (OAcceptCb c n ok)
-  | LRejectClose c | LConnExit c | LSdClose c => Some (OConnClose c)
+  | LRejectClose c | LConnExit c | LSdClose c | LDropClose c => Some (OConnClose c)
   | LServeReturn e => Some (OServeReturn e)
   | LConnRead c r => match r with RTimeout => None | _ => Some (ORead c r) end
   | LHandlerStart c => Some (OHandlerStart c)
@@ -497,10 +565,12 @@ Definition observe (k : cfg) (s : state) (l : label) : option obs :=
   | LReplyWrite c ok => Some (OWrite c ok)
   | LErrCb _ => if on_error k then Some OErrCb else None
   | LCloseCb c => if on_close k then Some (OCloseCb c (shut s)) else None
+  | LDropCb c => if on_close k
+                 then Some (OCloseCb c (match sp s with SDropCb _ false => true | _ => shut s end))
+                 else None
   | LSdCall => Some OSdCall
   | LSdReturn => Some (OSdReturn (if sd_err s then EOther else ENil))
   | LSdTimeout => Some (OSdReturn ECtx)
-  | LSdBegin => if lis_set s then None else Some (OSdReturn EPanic)
   | LCancel => Some OCancel
   | _ => None
   end.
